@@ -93,8 +93,9 @@ Passes.transformer, one constructor per class of the closed world WORLD, its arg
                 overridden by TransformerComposition, mutually recursive generators over the object graph),
                 apply_transformers / transform / TransformerComposition._transform (isinstance on a Union parameter,
                 functools.reduce over a lambda that dispatches `_transform`, recursion through the composition),
-                __or__ / __ror__ (return NotImplemented protocol) and the three __eq__.  They stay with the hand model
-                Model/Passes.v and the correspondence check.
+                __or__ / __ror__ (return NotImplemented protocol) and the three __eq__.  They are not covered HERE:
+                translator/t24_transformer.py (T24, built on PipeUnit) regenerates them into
+                Generated/TransformerGen.v.
 """
 import ast
 import re
